@@ -177,6 +177,16 @@ def junk_cases(rng, n):
             big = str(rng.pick(cnts)).encode()
             ks = rng.pick([ch + big + b".", ch + big + b"." + b"3.", b"Oo" + body + b"\x16\x1b\x1b^\"qy$" + big + b"@q", ch + b"2." + big + b"."])
             out.append(case(f, ks, 24, 80)); continue
+        if i % 25 == 7:
+            # fixed-size buffers of the insert-mode line editor: indentation that accumulates over several typed
+            # lines (the 128-byte auto-indent array), ^T / ^D runs, very long typed lines
+            f = gen_file(rng)
+            blanks = lambda: (rng.pick([b" ", b" ", b"\t"]) * rng.pick([60, 64, 100, 126, 127, 128, 130, 200]))
+            parts = [rng.pick([b"o", b"O", b"A", b"i", b"cc", b"S"])]
+            for _ in range(2 + rng.below(3)):
+                parts.append(rng.pick([blanks(), blanks(), b"\x14" * rng.pick([8, 16, 17, 40]), b""]) + rng.pick([b"a", b"b c", b"", "é".encode()]) + b"\n")
+            parts.append(rng.pick([b"z", b"\x04\x04z", b"x" * rng.pick([100, 500, 1100])]) + b"\x1b")
+            out.append(case(f, b"".join(parts), 24, 80)); continue
         f = gen_file(rng, long=(rng.below(10) == 0))
         m = rng.below(4)
         if m < 2: ks = junk_keys(rng, 1 + rng.below(50))
